@@ -79,6 +79,7 @@ func (q *queueMPSC) Push(value any) bool {
 	}
 	atomic.AddInt64(&q.length, 1)
 	old_head := (*itemMPSC)(atomic.SwapPointer((*unsafe.Pointer)(unsafe.Pointer(&q.head)), unsafe.Pointer(i)))
+	VerifPoint(q, "mpsc:link")
 	atomic.StorePointer((*unsafe.Pointer)(unsafe.Pointer(&old_head.next)), unsafe.Pointer(i))
 	return true
 }
@@ -97,6 +98,7 @@ func (q *queueLimitMPSC) Push(value any) bool {
 	}
 	atomic.AddInt64(&q.length, 1)
 	old_head := (*itemMPSC)(atomic.SwapPointer((*unsafe.Pointer)(unsafe.Pointer(&q.head)), unsafe.Pointer(i)))
+	VerifPoint(q, "mpsc:link")
 	atomic.StorePointer((*unsafe.Pointer)(unsafe.Pointer(&old_head.next)), unsafe.Pointer(i))
 	return true
 }
